@@ -3,6 +3,8 @@
 //
 // * leaves are scripted bool queues that count their invocations (atomic: a poller thread may call);
 // * `term` calls terminate() from a second thread (joined before the next op);
+// * `gate/await/release/settle`: a scripted leaf can block on its k-th invocation, so that terminate() can be
+//   placed exactly between the poller thread's call of the predicate and the store of its result;
 // * `clock=fake`: this translation unit defines clock_gettime(); the dynamic linker resolves
 //   libstdc++'s call (std::chrono::system_clock::now(), i.e. ompl::time::now()) to it, so the
 //   script sets the time the *unmodified* library code reads.  No source hook in /repo.
@@ -14,6 +16,7 @@
 #include "common/proto.h"
 #include <atomic>
 #include <chrono>
+#include <condition_variable>
 #include <dirent.h>
 #include <dlfcn.h>
 #include <functional>
@@ -63,15 +66,31 @@ extern "C" int clock_gettime(clockid_t id, struct timespec *ts) noexcept
 struct LeafScript
 {
     std::mutex m;
+    std::condition_variable cv;
     std::vector<char> vals;
     size_t base = 0;
     bool tail = false;
     std::atomic<size_t> calls{0};
     bool async = false;
+    // gate: the invocation with index gateAt blocks on entry until it is released and then returns
+    // gateVerdict (handshake-driven interleavings with a poller thread; no timing involved)
+    long long gateAt = -1;
+    bool gateVerdict = false;
+    bool inside = false, open = false, returned = false;
     bool invoke()
     {
-        std::lock_guard<std::mutex> g(m);
+        std::unique_lock<std::mutex> g(m);
         size_t k = calls++;
+        if (gateAt >= 0 && k == (size_t)gateAt)
+        {
+            inside = true;
+            cv.notify_all();
+            cv.wait(g, [this] { return open; });
+            gateAt = -1;
+            returned = true;
+            cv.notify_all();
+            return gateVerdict;
+        }
         if (k >= base && k - base < vals.size())
             return vals[k - base] != 0;
         return tail;
@@ -212,6 +231,7 @@ int main()
     ob::ProblemDefinitionPtr pdef = std::make_shared<ob::ProblemDefinition>(si);
     std::map<std::string, PTC> names;
     std::map<std::string, ob::IterationTerminationCondition> itcs;
+    int threadsAtAwait = 0;
 
     auto snapshot = [&]() {
         std::map<size_t, size_t> m;
@@ -466,6 +486,50 @@ int main()
             std::this_thread::sleep_for(std::chrono::milliseconds(*vp::parseNat(t[1])));
             std::cout << "ok\n";
         }
+        else if (op == "gate" && t.size() == 4 && vp::parseNat(t[1]) && vp::parseNat(t[2]) && *vp::parseNat(t[2]) >= 1 &&
+                 *vp::parseNat(t[2]) <= 1000000 && parseBit(t[3]))
+        {
+            // the k-th invocation from now blocks until `release` and then returns the verdict
+            auto l = leafOf(*vp::parseNat(t[1]));
+            std::lock_guard<std::mutex> g(l->m);
+            l->gateAt = (long long)(l->calls.load() + *vp::parseNat(t[2]) - 1);
+            l->gateVerdict = *parseBit(t[3]);
+            l->inside = l->open = l->returned = false;
+            std::cout << "ok\n";
+        }
+        else if (op == "await" && t.size() == 2 && vp::parseNat(t[1]))
+        {
+            // until the poller thread is inside the gated invocation (bounded wait, no timing claim)
+            auto l = leafOf(*vp::parseNat(t[1]));
+            std::unique_lock<std::mutex> g(l->m);
+            bool ok = l->cv.wait_for(g, std::chrono::seconds(20), [&] { return l->inside; });
+            g.unlock();
+            threadsAtAwait = countThreads();
+            std::cout << (ok ? "ok" : "timeout") << "\n";
+        }
+        else if (op == "release" && t.size() == 2 && vp::parseNat(t[1]))
+        {
+            // lets the gated invocation return its verdict; comes back once it has returned
+            auto l = leafOf(*vp::parseNat(t[1]));
+            std::unique_lock<std::mutex> g(l->m);
+            l->open = true;
+            l->cv.notify_all();
+            bool ok = !l->inside || l->cv.wait_for(g, std::chrono::seconds(20), [&] { return l->returned; });
+            std::cout << (ok ? "ok" : "timeout") << "\n";
+        }
+        else if (op == "settle" && t.size() == 1)
+        {
+            // until the poller thread that was inside the gate at `await` has left its loop and exited
+            // (it stores its result, sees terminate_ and returns): observed as the thread count dropping
+            bool ok = false;
+            auto t0 = std::chrono::steady_clock::now();
+            while (std::chrono::steady_clock::now() - t0 < std::chrono::seconds(20))
+            {
+                if (threadsAtAwait > 0 && countThreads() < threadsAtAwait) { ok = true; break; }
+                std::this_thread::sleep_for(std::chrono::microseconds(200));
+            }
+            std::cout << (ok ? "ok" : "timeout") << "\n";
+        }
         else if (op == "cost" && t.size() == 2 && vp::parseBits(t[1]))
         {
             const ob::ReportIntermediateSolutionFn &cb = pdef->getIntermediateSolutionCallback();
@@ -503,6 +567,13 @@ int main()
     // points back at pdef (a shared_ptr cycle in the library); break it so LeakSanitizer sees what
     // *else* leaks.  Recorded in notes/C18.md.
     pdef->setIntermediateSolutionCallback(ob::ReportIntermediateSolutionFn());
+    for (auto &kv : leaves)
+    {
+        // a poller still blocked in a gate would make the impl's destructor wait for ever
+        std::lock_guard<std::mutex> g(kv.second->m);
+        kv.second->open = true;
+        kv.second->cv.notify_all();
+    }
     names.clear();
     itcs.clear();
     return 0;
